@@ -30,6 +30,15 @@ CHECKS["C12"] = dict(engine="libsim", level="exploration", design_ref="DESIGN.md
    text="Every entry point (Bytes, String, Reader, Writer, ResponseWriter, Middleware, MiddlewareWithError, Match, chunked plain call) is run on real code under a seeded scheduler that decides every interleaving of producer writes, minifier goroutine and consumer reads; all 2^(n-1) chunk compositions of the short inputs, random partitions (incl. empty and 1-byte chunks) of corpus documents of all six types plus a streaming and a failing stub minifier. Bytes and error must equal the plain call; output complete and no later write at the event 'Close returned'; HTTP: no stale Content-Length, status forwarded, minifier chosen by Content-Type else path extension, pass-through when none. Sampling of schedules and long-input partitions, exhaustive only for the short-input compositions.",
    note="Trusts: Go runtime, testing/synctest, the doubles; SimResponseWriter is a stub of net/http that models only header freezing. Reference is computed by the same tree (plain call), so this check cannot see a bug that changes the plain call identically.")
 
+CHECKS["C13"] = dict(engine="libsim", level="exploration", design_ref="DESIGN.md §3 C13",
+   technique="deterministic simulation: N client tasks on one registry under a seeded, race-transparent scheduler (synctest quiescence, fake-clock hand-off without happens-before edges) in a -race build; sequential reference; replay and tape shrinking across processes",
+   text="2-6 simulated clients issue Minify/Bytes/String/Reader/Writer/Match/ResponseWriter/direct-package calls on ONE registry with shared option structs (values drawn per run), on documents biased to HTML hosts that re-enter the registry; the scheduler decides every interleaving of the yield points and hands over control without creating happens-before edges between tasks, so the Go race detector reports every conflicting unsynchronised pair executed by different tasks even though execution is serial, and the report replays from the tape. Also judged: bytes/error equal the sequential call, no lock wait (would-block from the lock facade), shared option structs deep-equal before/after, no deadlock. Seeded sampling of schedules, not enumeration.",
+   note="Trusts: Go race detector (shadow-memory limits apply), testing/synctest, go build -overlay replacing only the sync import of minify.go. Registration concurrent with use is excluded by the property. AddCmd minifiers are not scheduled (real processes).")
+CHECKS["C15"] = dict(engine="libsim", level="exploration", design_ref="DESIGN.md §3 C15",
+   technique="seeded operation histories (registrations interleaved with queries) against a small executable reference model; tape replay and shrinking; no schedule/fault dimension exists in this property",
+   text="Random registration histories over overlapping literal types and patterns (incl. re-registration and external-command minifiers) interleaved with Match/Minify/MinifyMimetype/Bytes/String/Reader queries over media type strings with case, spaces and parameters; every query is compared with a reference model of the documented rules (which stub ran, with which params, ErrNotExist and zero bytes otherwise, Match == what a call uses). Weak by nature: the property has no schedule or fault for a simulator to own; this is the model-based half of the technique only and is claimed as such.",
+   note="Trusts: the reference model (written from the doc comments) and its media type grammar; strings outside the grammar are judged only for Match/Minify agreement.")
+
 PENDING = {}
 
 def main():
@@ -72,5 +81,5 @@ def main():
     print("wrote MANIFEST.json:", len(checks), "checks,", len(na), "not applicable")
 
 if __name__ == "__main__":
-    PENDING.update({p: "check not built yet in this round (planned, see DESIGN.md §3); not claimed until it exists" for p in ["C10","C11","C13","C15","C19","C20"]})
+    PENDING.update({p: "check not built yet in this round (planned, see DESIGN.md §3); not claimed until it exists" for p in ["C10","C11","C19","C20"]})
     main()
